@@ -213,12 +213,14 @@ impl<Left: Executor, Right: Executor> NestedLoopJoin<Left, Right> {
 
         if matches!(self.join_type, JoinType::Right | JoinType::Full) {
             self.right_matched = vec![false; self.right_buffer.len()];
-        }
 
-        // The width of the left input must be known even if it produces no row at all:
-        // unmatched right rows are padded with that many NULLs.
-        if let Some(first) = self.right_buffer.first() {
-            self.left_cols = self.output_schema.num_columns() - first.len();
+            // The width of the left input must be known even if it produces no row at all:
+            // unmatched right rows are padded with that many NULLs.
+            if let Some(first) = self.right_buffer.first() {
+                if let Some(width) = self.output_schema.num_columns().checked_sub(first.len()) {
+                    self.left_cols = width;
+                }
+            }
         }
 
         self.right_buffered = true;
